@@ -248,7 +248,6 @@ def prop_C13(run):
     rules_unit.parenthesized_span(run)
     rules_unit.line_column_counts(run)
     rules_unit.walker_text(run)
-    rules_unit.duplicate_later_blamed(run)      # a duplicate is reported at the declaration written later (F78)
     import rules_sym
     rules_sym.declare_rules(run)
     reach = reach_roots(run)
